@@ -163,9 +163,9 @@ include hpl hsep
 
 /-- **C03 (9)** What the outcome of every `WritePiece` call means, for every schedule.
     `ok`: the payload was exactly the blob's piece and that piece is (and stays) complete;
-    `panic`: only for a negative index; a store error never occurs;
+    a panic or a store error never occurs;
     "invalid piece sum": the payload was not the blob's piece; "invalid piece length": valid index,
-    wrong length; "invalid piece index": index ≥ number of pieces; `ErrPieceComplete`: the piece is
+    wrong length; "invalid piece index": index negative or ≥ number of pieces; `ErrPieceComplete`: the piece is
     complete (hence verified, by (1)); conflict: valid index and length. -/
 theorem result_meaning (tid : Nat) (t : Thread)
     (ht : (run crc (MetaInfo.ofBlob crc pl blob) sched).threads[tid]? = some t) (hd : t.pc = .done) :
@@ -184,16 +184,28 @@ theorem accepted_is_blob_piece (tid : Nat) (t : Thread)
   rw [hok] at h
   exact ⟨h.1.1, h.1.2.2, h.2.1, h.2.2⟩
 
-/-- **C03 (9b)** No panic for a non-negative index, and never an internal store failure (the file is
-    never moved away under a writer, the sidecar is never short). -/
+/-- **C03 (9b)** No call panics, whatever the index (negative, too large) and the payload, and none
+    fails internally (the file is never moved away under a writer, the sidecar is never short);
+    every finished call has a result. -/
 theorem no_panic_no_store_error (tid : Nat) (t : Thread)
     (ht : (run crc (MetaInfo.ofBlob crc pl blob) sched).threads[tid]? = some t) (hd : t.pc = .done) :
-    (t.result = some .panic → t.pi < 0) ∧ t.result ≠ some .errStore ∧ t.result ≠ none := by
+    t.result ≠ some .panic ∧ t.result ≠ some .errStore ∧ t.result ≠ none := by
   have h := result_meaning crc pl blob hpl sched hsep tid t ht hd
   refine ⟨?_, ?_, ?_⟩
   · intro hp; rw [hp] at h; exact h
   · intro hp; rw [hp] at h; exact h
   · intro hp; rw [hp] at h; exact h
+
+/-- **C03 (9c)** Observations never panic either: `GetPieceReader` and `HasPiece` answer for every
+    integer index (in every state). -/
+theorem observations_total (s : State) (pi : Int) : readPiece s pi ≠ .panic ∧ hasPiece s pi ≠ none := by
+  constructor
+  · unfold readPiece
+    split
+    · intro h; cases h
+    · split <;> intro h <;> cases h
+  · unfold hasPiece
+    split <;> intro h <;> cases h
 
 /-- **C03 (10)** The commit is not missed: with no call in flight, if every piece is complete then
     `Complete()` is true (and by (3) the cached file is the blob). -/
@@ -246,7 +258,7 @@ set_option maxRecDepth 100000 in
 example : SepSched toyCrc 2 [1, 2, 3, 4, 5] exSched := by decide
 set_option maxRecDepth 100000 in
 example : (run toyCrc (MetaInfo.ofBlob toyCrc 2 [1, 2, 3, 4, 5]) exSched).threads.map (·.result) =
-    [some .errSum, some .errConflict, some .ok, some .ok, some .errIndex, some .panic, some .ok,
+    [some .errSum, some .errConflict, some .ok, some .ok, some .errIndex, some .errIndex, some .ok,
      some .errComplete] := by decide
 set_option maxRecDepth 100000 in
 example : complete (run toyCrc (MetaInfo.ofBlob toyCrc 2 [1, 2, 3, 4, 5]) exSched) = true := by decide
